@@ -139,7 +139,6 @@ enum Node<'a> {
     Table(&'a mut Table),
 }
 
-/// the table-like / array-like views of a node
 /// rank used by the `rank` comparator: placeholders, then non-integers (all tied), then integers by value
 fn rank_item(i: &Item) -> (u8, i64) {
     match i {
@@ -155,6 +154,7 @@ fn rank_value(v: &Value) -> (u8, i64) {
     }
 }
 
+/// the table-like / array-like views of a node
 enum View<'a> {
     Table(&'a mut Table),
     Inline(&'a mut InlineTable),
